@@ -43,6 +43,10 @@ CLAIMED = {
   "Contract proof over the real SSA with ghost logs of every Write to a digest/buffer: (1) order independence - in every function that derives a cache key or a component digest (Endpoint.Hash, Subject.Hash, the calculateCacheKey functions of the remote authorizer, generic contextualizer, JWT finalizer and the three caching authenticators) no write to the digest is reachable inside a loop that ranges over a map (claimed per function by wildcard, so a newly introduced loop is reported); (2) coverage - the key's own digest receives the endpoint digest, the mechanism id, the rendered payload / URL, the presented credential and the digest of the whole subject (id and attributes), each proved as 'some write to the digest created by this call carries exactly that value'.",
   "Not covered: unambiguity of the concatenation (components are written without separators or length prefixes - candidate finding, not decided), whether rule-level assertions/expressions are part of the key, validation-before-caching and no-call-on-hit. SHA-256 treated as injective on the written sequence; stringx.ToBytes (unsafe) trusted as identity on bytes; json.Marshal of a map is key-sorted (std behaviour, trusted).",
   "contract-based deductive verification (govc VC generation over go/ssa, z3/cvc5)", "DESIGN.md §6 C11"),
+ "C05": ("proof",
+  "Contract proof of the guard structure over the real SSA: verifyTokenWithKey succeeds only if the key's declared algorithm equals the token header's, AssertAlgorithm was called on exactly that algorithm under the assertions in force and passed, the token's claims were obtained through go-jose's verifying Claims(key, ...) call with exactly that key, Claims.Validate ran under exactly those assertions and passed, and the returned payload is the marshalled verified claims. Claims.Validate succeeds only if issuer, audience, validity period, issuance time and scopes were each asserted under the given expectation and none failed; AssertAlgorithm/AssertIssuer are membership, AssertValidity is proved equivalent to the leeway arithmetic of the property over the clock reading it takes; Expectation.Merge gives precedence field by field; rule-level WithConfig merges the rule's assertions over the catalogue's (with cover obligations making sure 'rule does not set scopes' stays a reachable case).",
+  "Not covered: signature mathematics and token parsing (go-jose: token.Claims returns nil only for a valid signature - trusted), byte-level mutation resistance, getKey/verifyTokenWithoutKID (which key is used: candidates from the fetched set only - not under contract yet), the scope matchers' semantics (only proved read-only), subject creation from the verified payload in Execute.",
+  "contract-based deductive verification (govc VC generation over go/ssa, z3/cvc5)", "DESIGN.md §6 C05"),
 }
 NOT_APPLICABLE = {
  "C20": "no contract within reach expresses or decides it: the behaviour lives in reflection-driven third-party code (koanf, mapstructure, yaml, jsonschema) and recursive any-typed merges; see DESIGN.md §6 C20",
